@@ -44,6 +44,11 @@ def histories(tier, rng):
     yield [('scp', 2), ('scu', 2, 2)]
     yield [('scu', 2), ('scu', 3, 1)]
     yield [('scu', 3), ('scp', 1), ('scu', 2, 1)]
+    # the entity is USED (an association is requested) between two configuration steps: the next request must still
+    # reflect everything configured by then
+    yield [('scu', 1), ('assoc',), ('scp', 1)]
+    yield [('scu', 2), ('assoc',), ('scu', 1)]
+    yield [('scp', 1), ('scu', 1), ('assoc',), ('scp', 2), ('assoc',), ('scu', 1)]
     for n in (63, 64, 126, 127, 128):
         yield [('scu', n)]
     yield [('scu', 64), ('scu', 64)]
@@ -88,7 +93,17 @@ def run_case(hist, ts_list, reply, own_max, rng):
     else:
         ae = N.applicationentity.ClientAE('LOCAL-AE', supported_ts=ts_list, max_pdu_length=own_max)
     prev = []
+    remote0 = {'aet': 'REMOTE-AE', 'address': 'peer.example', 'port': 11112}
     for j, h in enumerate(hist):
+        if h[0] == 'assoc':
+            # an association with everything configured so far, every context accepted; its outcome is not judged here
+            ids0 = sorted(ae.context_def_list)
+            acc = N.pdu.AAssociateAcPDU.decode(N.ac_bytes('REMOTE-AE', 'LOCAL-AE', [{'id': i, 'res': 0, 'ts': str(ts_list[0])} for i in ids0 if i <= 255], 16384))
+            try:
+                N.bare_requester(ae, own_max, remote0, [acc])._request(ae.local_ae, remote0, users_pdu=[])
+            except Exception:      # noqa
+                pass
+            continue
         kind, n = h[0], h[1]
         shared = h[2] if len(h) > 2 else 0
         classes = prev[:shared] + uid_pool(n - shared, j)
@@ -162,7 +177,7 @@ def main(tier='quick'):
     cases, metas = [], []
     ts_variants = [[N.TS_UID['T1']], [N.TS_UID['T2'], N.TS_UID['T1']], [N.TS_UID['T1'], N.TS_UID['T2'], N.TS_UID['T3']]]
     for hist in histories(tier, rng):
-        total = sum(h[1] - (h[2] if len(h) > 2 else 0) for h in hist)
+        total = sum(h[1] - (h[2] if len(h) > 2 else 0) for h in hist if h[0] != 'assoc')
         ts_list = ts_variants[total % 3]
         ids = [1 + 2 * i for i in range(total)]
         for reply in reply_patterns(ids, ts_list, tier, rng):
